@@ -136,7 +136,7 @@ def _ops(cfg, cx):
             if any(c % fs for _, c in sg):
                 continue
             ncomp = sum((c // fs) * D ** kp[0] for kp, c in sg)
-            for comp in [0, ncomp - 1, slice(1, 3)]:
+            for comp in list(range(ncomp)) + [slice(1, 3), slice(max(ncomp - 3, 0), ncomp - 1), slice(0, ncomp)]:
                 def gc(bl, comp=comp, fs=fs):
                     m = mk(bl)
                     return (m.get_component(comp, fs) if n_lead == 1 else m.batch_get_component(comp, fs))[(0, 0)]
@@ -158,7 +158,8 @@ def _ops(cfg, cx):
                 else:
                     exp = np.stack([spec({kp: v.a[b] for kp, v in blocks.items()}) for b in range(blocks[sg[0][0]].shape[0])], axis=0)
                 cx.equal(f"get_component[{comp},fs={fs}]", out, exp, key=f"get_component:{ckey}:comp={comp}:fs={fs}",
-                         replay=lambda vals, bvals, gc=gc, spec=spec: (True, "get_component differs from its documented selection"))
+                         replay=lambda vals, bvals, gc=gc, exp=exp: cx.deviates(
+                             np.asarray(gc({q: jnp.asarray(cx.conc(v, vals)) for q, v in blocks.items()})), cx.expected(exp, vals), rtol=1e-6))
     # canary
     kp0 = sg[0][0]
     out = I.sym_call(lambda bl: dict(mk(bl).times_group_element(gs[0]).data), blocks)
